@@ -172,6 +172,7 @@ pub fn remainder(item: &Item, tag: &str) -> Option<Item> {
                 None
             }
         }
+        Item::Delivery { .. } => None,
         Item::C16Enum { prog, kind, idx } => {
             let i: usize = parts.get(3)?.parse().ok()?;
             let pos = idx.iter().position(|x| *x == i)?;
